@@ -103,8 +103,13 @@ def apply_op(st, op, refs, own_ids, ds=None):
     try:
         if k == "create":
             m = op[2]
-            st.create_bucket(op[1], m["type"], m["client"], m["hostname"], storelib.created_iso(m["created_us"]),
-                             name=m.get("name"), data=json.loads(m["data"]) if m.get("data") is not None else None)
+            if ds is not None:
+                # as an application does: through the Datastore object (whatever it does must stay ONE bucket-level operation)
+                ds.create_bucket(op[1], m["type"], m["client"], m["hostname"], created=storelib.us_to_dt(m["created_us"]),
+                                 name=m.get("name"), data=json.loads(m["data"]) if m.get("data") is not None else None)
+            else:
+                st.create_bucket(op[1], m["type"], m["client"], m["hostname"], storelib.created_iso(m["created_us"]),
+                                 name=m.get("name"), data=json.loads(m["data"]) if m.get("data") is not None else None)
             return ["ok"], rop
         if k == "update":
             kw = dict(op[2])
